@@ -172,6 +172,24 @@ def gen_value_forest(rng):
             d.attrs.append((0x2107 + rng.randint(0, 5), "data2", 0x8001)); exps.append((None, None))     # user attribute: decoded unsigned, not judged by name
         if d.attrs:
             add(d, exps)
+    # --- values integrated over one and two DW_AT_abstract_origin / DW_AT_specification hops: decoded as the DIE that STORES them would decode them
+    # (the DIEs on the way carry types of the opposite signedness)
+    signed_t = [t for t, k in zoo.kinds[:11] if k == "signed"]
+    unsigned_t = [t for t, k in zoo.kinds[:11] if k == "unsigned"]
+    for _ in range(rng.randint(2, 6)):
+        sg = rng.random() < 0.5
+        own, other = (signed_t, unsigned_t) if sg else (unsigned_t, signed_t)
+        form = rng.choice(["data1", "data2", "data4"])
+        raw = {"data1": 0xff, "data2": 0xfffe, "data4": 0xfffffffd}[form] if rng.random() < 0.8 else 5
+        holder = Die("variable", [("name", "string", b"held"), ("type", "ref4", rng.choice(own)), ("const_value", form, raw)])
+        dies.append(holder); expect[id(holder)] = []
+        cur = holder
+        for hop in range(rng.randint(1, 3)):
+            nxt = Die("variable", [(rng.choice(["abstract_origin", "specification"]), "ref4", cur)] + ([("type", "ref4", rng.choice(other))] if rng.random() < 0.7 else []))
+            dies.append(nxt)
+            want = sext(raw, SIZES[form]) if sg else raw
+            expect[id(nxt)] = [("const_value", ("cooked-sint" if sg else "cooked-uint", want))]
+            cur = nxt
     # --- DW_AT_ranges: a list in .debug_ranges (DWARF 2-4), offsets relative to the unit's low_pc until a base-address entry
     ranges_blob = bytearray()
     if version <= 4:
@@ -328,6 +346,9 @@ def check_forest(d, f, expect, dies, path, tag, out, bad, hdr):
                 continue
             out["attrs"] += 1
             q = "raw entry (offset == %#x) [attribute ?AT_%s value]" % (x.offset, name)
+            if exp[0].startswith("cooked-"):
+                q = "entry (offset == %#x) [@AT_%s]" % (x.offset, name)
+                exp = (exp[0][7:],) + tuple(exp[1:])
             r = d.run(q, inp=inp, fuel=0, max=10, timeout=120)
             kind = exp[0]
             w = dict(file=tag, die=hex(x.offset), attr=name, expectation=[str(e)[:60] for e in exp])
